@@ -11,7 +11,13 @@ CaseOf(ev) == [agg |-> ev.agg, F |-> ev.F, prev |-> ev.prev]
 Scaled(c) == 1000 * c
 Matches(ev, c) == IF c = Floor THEN ev.floored ELSE (~ev.floored /\ ev.tot = Scaled(c))
 
+(* the access component reported for the edge is CostModel::access_cost for the pair (previous, this) in travel order: *)
+(* rated access change plus the per-turn surcharges of exactly that pair; nothing without a previous edge             *)
+AccOK(ev) == IF ev.prev
+             THEN LET a == AccessCost(ev.agg, ev.F) IN IF a = Floor THEN ev.acc = 0 ELSE ev.acc = Scaled(a)
+             ELSE ev.acc = 0
 T_Charge == /\ Ev.ev = "Charge" /\ Charge(CaseOf(Ev))
+            /\ AccOK(Ev)
             /\ Ev.finite /\ Ev.positive                      \* finite and strictly positive, always
             /\ Ev.est_finite /\ Ev.est_nonneg
             /\ Ev.est = Scaled(res'.est)
